@@ -37,8 +37,8 @@ manifest = {
     "version": 1,
     "setup_cmd": "bash tools/setup.sh",
     "hooks": {
-        "guard": "--cfg fuellabs_fuel_vm_verif",
-        "enable": "RUSTFLAGS=\"--cfg fuellabs_fuel_vm_verif\" (set in /verif/harness/.cargo/config.toml; the harness crate has path dependencies on /repo's crates)",
+        "guard": "cargo feature `verif-hooks` of fuel-crypto (off by default; nothing in the workspace enables it)",
+        "enable": "the harness crate /verif/harness depends on /repo/fuel-crypto with features = [..., \"verif-hooks\"] (path dependencies on /repo's crates; rebuilt from the current tree on every check)",
         "baseline_off_cmd": "cd /repo && cargo test --workspace --no-fail-fast --offline",
         "source_commits": json.load(open(os.path.join(VERIF, "tools", "hook_commits.json"))) if os.path.exists(os.path.join(VERIF, "tools", "hook_commits.json")) else [],
         "add_only": True,
